@@ -194,6 +194,8 @@ def rule_config(ctx):
 
 def rule_progress(ctx):
     B.check_progress(ctx, "C08.PROGRESS", only_threshold_none=True)
+    # a cached scan offset that survives a truncation makes a complete payload invisible: the link stalls for good
+    B.check_aux(ctx, "C08.AUX")
     # with the threshold disabled the only way out of the loop for an incomplete message is the break
     f, paths = B.explore_process(ctx)
     ok = False
